@@ -29,7 +29,7 @@
 namespace symt {
 
 enum Op : uint8_t {
-  VAR, LIT, KONST,
+  VAR, LIT, LITI, KONST,
   ADD, SUB, MUL, DIV, NEG,
   CALL1, CALL2, CALL3,
   BAND, BOR, BXOR, BNOT, SHL, SHR, IMOD, CAST,
@@ -80,7 +80,7 @@ inline bool& bad_handle() { static bool b = false; return b; }
 inline uint32_t chk(uint32_t id) { if (id >= arena().nodes.size()) { bad_handle() = true; return 0; } return id; }
 inline uint32_t mk(Op op, uint32_t a = 0, uint32_t b = 0, uint32_t c = 0, uint8_t sub = 0) {
   switch (op) {
-    case VAR: case LIT: case KONST: break;
+    case VAR: case LIT: case LITI: case KONST: break;
     case NEG: case CALL1: case BNOT: case CAST: case C_ISNAN: case C_ISINF: case C_NOT: a = chk(a); break;
     case CALL3: a = chk(a); b = chk(b); c = chk(c); break;
     default: a = chk(a); b = chk(b);
@@ -88,6 +88,7 @@ inline uint32_t mk(Op op, uint32_t a = 0, uint32_t b = 0, uint32_t c = 0, uint8_
   Node n{op, sub, a, b, c, 0.0, 0}; return arena().mk(n);
 }
 inline uint32_t mk_lit(double d) { Node n{LIT, 0, 0, 0, 0, d, 0}; return arena().mk(n); }
+inline uint32_t mk_liti(int64_t v, bool uns) { Node n{LITI, (uint8_t)uns, 0, 0, 0, 0.0, v}; return arena().mk(n); }
 inline uint32_t mk_var(uint32_t i) { Node n{VAR, 0, i, 0, 0, 0.0, 0}; return arena().mk(n); }
 inline uint32_t mk_konst(uint8_t k) { Node n{KONST, k, 0, 0, 0, 0.0, 0}; return arena().mk(n); }
 
@@ -120,6 +121,12 @@ inline bool decide_cmp(Op op, uint32_t a, uint32_t b) {
   if (is_lit(a) && is_lit(b)) {           // constants are folded (e.g. `Bits >= 32 ? … : …`)
     double x = lit_val(a), y = lit_val(b);
     switch (op) { case C_LT: return x < y; case C_LE: return x <= y; case C_EQ: return x == y; default: break; }
+  }
+  if (arena().nodes[a].op == LITI && arena().nodes[b].op == LITI) {
+    Node const& x = arena().nodes[a]; Node const& y = arena().nodes[b];
+    if (x.sub || y.sub) { uint64_t p = (uint64_t)x.i, q = (uint64_t)y.i;
+      switch (op) { case C_LT: return p < q; case C_LE: return p <= q; case C_EQ: return p == q; default: break; } }
+    else switch (op) { case C_LT: return x.i < y.i; case C_LE: return x.i <= y.i; case C_EQ: return x.i == y.i; default: break; }
   }
   return oracle().ask(mk(op, a, b));
 }
@@ -177,6 +184,53 @@ SYMR_MIXED(+, SymR) SYMR_MIXED(-, SymR) SYMR_MIXED(*, SymR) SYMR_MIXED(/, SymR)
 SYMR_MIXED(<, bool) SYMR_MIXED(>, bool) SYMR_MIXED(<=, bool) SYMR_MIXED(>=, bool) SYMR_MIXED(==, bool) SYMR_MIXED(!=, bool)
 #undef SYMR_MIXED
 
+
+// ---------------------------------------------------------------- SymInt: 32-bit symbolic integers
+// (sizeof == 4 because glm selects ladder steps with sizeof(T)*8; 8/16-bit types are covered by exhaustive
+// correspondence in the hand-model checks instead, integer promotion makes them untraceable this way)
+template<bool S> struct SymInt {
+  uint32_t id;
+  SymInt() = default;
+  SymInt(int v) : id(mk_liti(S ? (int64_t)(int32_t)v : (int64_t)(uint32_t)v, !S)) {}
+  SymInt(unsigned v) : id(mk_liti(S ? (int64_t)(int32_t)v : (int64_t)(uint32_t)v, !S)) {}
+  SymInt(long v) : SymInt((int)v) {}
+  SymInt(unsigned long v) : SymInt((unsigned)v) {}
+  SymInt(long long v) : SymInt((int)v) {}
+  SymInt(unsigned long long v) : SymInt((unsigned)v) {}
+  SymInt(bool v) : SymInt((int)v) {}
+  SymInt(signed char v) : SymInt((int)v) {}
+  SymInt(unsigned char v) : SymInt((int)v) {}
+  SymInt(short v) : SymInt((int)v) {}
+  SymInt(unsigned short v) : SymInt((int)v) {}
+  explicit SymInt(SymInt<!S> o) : id(mk(CAST, o.id, 0, 0, S ? T_I32 : T_U32)) {}
+  static SymInt from(uint32_t id) { SymInt s; s.id = id; return s; }
+  static SymInt var(uint32_t i) { return from(mk_var(i)); }
+#define SI_ASG(OP, NODE) SymInt& operator OP(SymInt o) { id = mk(NODE, id, o.id); return *this; }
+  SI_ASG(+=, ADD) SI_ASG(-=, SUB) SI_ASG(*=, MUL) SI_ASG(/=, DIV) SI_ASG(%=, IMOD)
+  SI_ASG(&=, BAND) SI_ASG(|=, BOR) SI_ASG(^=, BXOR) SI_ASG(<<=, SHL) SI_ASG(>>=, SHR)
+#undef SI_ASG
+  SymInt& operator++() { id = mk(ADD, id, SymInt(1).id); return *this; }
+  SymInt& operator--() { id = mk(SUB, id, SymInt(1).id); return *this; }
+  SymInt operator++(int) { SymInt r = *this; ++*this; return r; }
+  SymInt operator--(int) { SymInt r = *this; --*this; return r; }
+};
+using SymI32 = SymInt<true>; using SymU32 = SymInt<false>;
+static_assert(sizeof(SymI32) == 4 && std::is_trivially_default_constructible<SymI32>::value, "");
+#define SI_BIN(OP, NODE) template<bool S> inline SymInt<S> operator OP(SymInt<S> a, SymInt<S> b) { return SymInt<S>::from(mk(NODE, a.id, b.id)); } \
+  template<bool S, class A, class = typename std::enable_if<std::is_integral<A>::value>::type> inline SymInt<S> operator OP(SymInt<S> a, A b) { return a OP SymInt<S>(b); } \
+  template<bool S, class A, class = typename std::enable_if<std::is_integral<A>::value>::type> inline SymInt<S> operator OP(A a, SymInt<S> b) { return SymInt<S>(a) OP b; }
+SI_BIN(+, ADD) SI_BIN(-, SUB) SI_BIN(*, MUL) SI_BIN(/, DIV) SI_BIN(%, IMOD) SI_BIN(&, BAND) SI_BIN(|, BOR) SI_BIN(^, BXOR) SI_BIN(<<, SHL) SI_BIN(>>, SHR)
+#undef SI_BIN
+template<bool S> inline SymInt<S> operator-(SymInt<S> a) { return SymInt<S>::from(mk(NEG, a.id)); }
+template<bool S> inline SymInt<S> operator+(SymInt<S> a) { return a; }
+template<bool S> inline SymInt<S> operator~(SymInt<S> a) { return SymInt<S>::from(mk(BNOT, a.id)); }
+#define SI_CMP(OP, EXPR) template<bool S> inline bool operator OP(SymInt<S> a, SymInt<S> b) { return EXPR; } \
+  template<bool S, class A, class = typename std::enable_if<std::is_integral<A>::value>::type> inline bool operator OP(SymInt<S> a, A b) { return a OP SymInt<S>(b); } \
+  template<bool S, class A, class = typename std::enable_if<std::is_integral<A>::value>::type> inline bool operator OP(A a, SymInt<S> b) { return SymInt<S>(a) OP b; }
+SI_CMP(<, decide_cmp(C_LT, a.id, b.id)) SI_CMP(>, decide_cmp(C_LT, b.id, a.id)) SI_CMP(<=, decide_cmp(C_LE, a.id, b.id))
+SI_CMP(>=, decide_cmp(C_LE, b.id, a.id)) SI_CMP(==, decide_cmp(C_EQ, a.id, b.id)) SI_CMP(!=, !decide_cmp(C_EQ, a.id, b.id))
+#undef SI_CMP
+
 inline SymR call1(Fn f, SymR a) { return SymR::from(mk(CALL1, a.id, 0, 0, f)); }
 inline SymR call2(Fn f, SymR a, SymR b) { return SymR::from(mk(CALL2, a.id, b.id, 0, f)); }
 inline SymR call3(Fn f, SymR a, SymR b, SymR c) { return SymR::from(mk(CALL3, a.id, b.id, c.id, f)); }
@@ -197,6 +251,17 @@ template<> struct numeric_limits<SymR> {
   static SymR lowest() { return -max(); }
   static SymR infinity() { return SymR::from(symt::mk_konst(symt::K_INF)); }
 };
+template<bool S> struct numeric_limits<symt::SymInt<S>> {
+  static constexpr bool is_specialized = true, is_signed = S, is_integer = true, is_exact = true, is_iec559 = false, is_bounded = true, is_modulo = !S;
+  static constexpr int digits = S ? 31 : 32, radix = 2;
+  static symt::SymInt<S> min() { return symt::SymInt<S>(S ? (int)0x80000000 : 0); }
+  static symt::SymInt<S> max() { return S ? symt::SymInt<S>(0x7fffffff) : symt::SymInt<S>(0xffffffffu); }
+  static symt::SymInt<S> lowest() { return min(); }
+};
+template<> struct make_unsigned<symt::SymI32> { using type = symt::SymU32; };
+template<> struct make_unsigned<symt::SymU32> { using type = symt::SymU32; };
+template<> struct make_signed<symt::SymI32> { using type = symt::SymI32; };
+template<> struct make_signed<symt::SymU32> { using type = symt::SymI32; };
 #define SYM_F1(name, F) inline SymR name(SymR a) { return symt::call1(symt::F, a); }
 SYM_F1(sqrt, F_SQRT) SYM_F1(sin, F_SIN) SYM_F1(cos, F_COS) SYM_F1(tan, F_TAN)
 SYM_F1(asin, F_ASIN) SYM_F1(acos, F_ACOS) SYM_F1(atan, F_ATAN)
@@ -231,20 +296,25 @@ struct Traced {
 // handle (0xFFFFFFFF) rather than a stale valid one; best effort, the unit TUs are compiled at -O0
 __attribute__((noinline)) inline void poison_stack() { volatile unsigned char buf[1 << 17]; for (size_t i = 0; i < sizeof buf; ++i) buf[i] = 0xFF; }
 
-template<class F>
+template<class S> struct sym_ty { static constexpr Ty value = T_R; };
+template<> struct sym_ty<SymI32> { static constexpr Ty value = T_I32; };
+template<> struct sym_ty<SymU32> { static constexpr Ty value = T_U32; };
+template<class S> S sym_zero() { return S(0); }
+
+template<class S = SymR, class F>
 Traced trace_unit(std::string const& name, int nin, int nout, F&& f, size_t max_paths = 4096) {
-  Traced tr; tr.name = name; tr.nin = nin; tr.nout = nout; tr.ty = T_R;
-  std::vector<SymR> in(nin), out(nout);
-  for (int i = 0; i < nin; ++i) in[i] = SymR::var(i);
+  Traced tr; tr.name = name; tr.nin = nin; tr.nout = nout; tr.ty = sym_ty<S>::value;
+  std::vector<S> in(nin), out(nout);
+  for (int i = 0; i < nin; ++i) in[i] = S::var(i);
   mk_lit(0.0);                                     // node ids start above the inputs
   Oracle& o = oracle();
   o.decisions.clear(); o.overflow = false;
   for (;;) {
     o.pos = 0; o.trail.clear();
-    for (int j = 0; j < nout; ++j) out[j] = SymR(0.0);
+    for (int j = 0; j < nout; ++j) out[j] = sym_zero<S>();
     bad_handle() = false;
     poison_stack();
-    f((SymR const*)in.data(), out.data());
+    f((S const*)in.data(), out.data());
     Path p; p.trail = o.trail;
     for (int j = 0; j < nout; ++j) p.outs.push_back(chk(out[j].id));
     if (bad_handle()) { tr.ok = false; tr.err = "uninitialised value read (a result depends on an object glm never wrote)"; tr.paths.push_back(std::move(p)); break; }
@@ -286,7 +356,7 @@ inline void collect(uint32_t id, std::set<uint32_t>& seen) {
   if (!seen.insert(id).second) return;
   Node const& n = arena().nodes[id];
   switch (n.op) {
-    case VAR: case LIT: case KONST: break;
+    case VAR: case LIT: case LITI: case KONST: break;
     case NEG: case CALL1: case BNOT: case CAST: case C_ISNAN: case C_ISINF: case C_NOT: collect(n.a, seen); break;
     case CALL3: collect(n.a, seen); collect(n.b, seen); collect(n.c, seen); break;
     default: collect(n.a, seen); collect(n.b, seen);
@@ -325,6 +395,7 @@ inline void emit(FILE* fp, Traced const& tr) {
     switch (n.op) {
       case VAR: fprintf(fp, "N %u var %u\n", id, n.a); break;
       case LIT: fprintf(fp, "N %u lit ", id); print_lit(fp, n.d); fprintf(fp, "\n"); break;
+      case LITI: if (n.sub) fprintf(fp, "N %u liti %llu\n", id, (unsigned long long)n.i); else fprintf(fp, "N %u liti %lld\n", id, (long long)n.i); break;
       case KONST: fprintf(fp, "N %u konst %s\n", id, konst_name[n.sub]); break;
       case ADD: fprintf(fp, "N %u add %u %u\n", id, n.a, n.b); break;
       case SUB: fprintf(fp, "N %u sub %u %u\n", id, n.a, n.b); break;
@@ -368,9 +439,12 @@ inline void emit(FILE* fp, Traced const& tr) {
 // callable is instantiated at SymR (trace) and at float/double (correspondence)
 struct UnitRec {
   std::string name; int nin, nout;
+  Ty ty = T_R;                                        // T_R: real unit (float+double); T_I32 / T_U32: integer unit
   std::function<void(SymR const*, SymR*)> fsym;
   std::function<void(float const*, float*)> f32;
   std::function<void(double const*, double*)> f64;
+  std::function<void(SymI32 const*, SymI32*)> fsymi;  std::function<void(int32_t const*, int32_t*)> fi32;
+  std::function<void(SymU32 const*, SymU32*)> fsymu;  std::function<void(uint32_t const*, uint32_t*)> fu32;
 };
 inline std::vector<UnitRec>& registry() { static std::vector<UnitRec> r; return r; }
 
@@ -380,6 +454,18 @@ void add_unit(std::string const& name, int nin, int nout, F f) {
   u.fsym = [f](SymR const* x, SymR* o) { f(x, o); };
   u.f32 = [f](float const* x, float* o) { f(x, o); };
   u.f64 = [f](double const* x, double* o) { f(x, o); };
+  registry().push_back(std::move(u));
+}
+
+// integer units: the same generic callable at SymI32 / int32_t (signed) or SymU32 / uint32_t
+template<class F> void add_unit_i32(std::string const& name, int nin, int nout, F f) {
+  UnitRec u; u.name = name; u.nin = nin; u.nout = nout; u.ty = T_I32;
+  u.fsymi = [f](SymI32 const* x, SymI32* o) { f(x, o); }; u.fi32 = [f](int32_t const* x, int32_t* o) { f(x, o); };
+  registry().push_back(std::move(u));
+}
+template<class F> void add_unit_u32(std::string const& name, int nin, int nout, F f) {
+  UnitRec u; u.name = name; u.nin = nin; u.nout = nout; u.ty = T_U32;
+  u.fsymu = [f](SymU32 const* x, SymU32* o) { f(x, o); }; u.fu32 = [f](uint32_t const* x, uint32_t* o) { f(x, o); };
   registry().push_back(std::move(u));
 }
 
@@ -408,7 +494,34 @@ template<class T> T gen_value(Rng& r, int cls) {
   }
 }
 
+// integer inputs: 0: small  1: boundary patterns  2: random 32-bit
+template<class T> T gen_int(Rng& r, int cls) {
+  switch (cls) {
+    case 0: return (T)((int)(r.next() % 33) - 16);
+    case 1: { static const uint32_t sp[] = {0u, 1u, 2u, 0x7fu, 0x80u, 0xffu, 0x100u, 0x7fffu, 0x8000u, 0xffffu, 0x10000u, 0x7fffffffu, 0x80000000u, 0x80000001u, 0xfffffffeu, 0xffffffffu, 0x55555555u, 0xaaaaaaaau};
+              return (T)sp[r.next() % (sizeof(sp) / sizeof(sp[0]))]; }
+    default: return (T)(uint32_t)r.next();
+  }
+}
 template<class T> void put_bits(FILE* fp, T v);
+template<> inline void put_bits<int32_t>(FILE* fp, int32_t v) { fprintf(fp, " %u", (uint32_t)v); }
+template<> inline void put_bits<uint32_t>(FILE* fp, uint32_t v) { fprintf(fp, " %u", v); }
+template<class T, class FN>
+void run_concrete_int(FILE* fp, UnitRec const& u, FN const& fn, const char* tyname, uint64_t seed, int count) {
+  Rng r(seed ^ std::hash<std::string>()(u.name));
+  std::vector<T> in(u.nin), out(u.nout);
+  for (int k = 0; k < count; ++k) {
+    int cls = k % 4 < 2 ? 0 : (k % 4 == 2 ? 1 : 2);
+    for (int i = 0; i < u.nin; ++i) in[i] = gen_int<T>(r, cls);
+    for (int j = 0; j < u.nout; ++j) out[j] = T(0);
+    fn(in.data(), out.data());
+    fprintf(fp, "R %s %s", u.name.c_str(), tyname);
+    for (int i = 0; i < u.nin; ++i) put_bits<T>(fp, in[i]);
+    fprintf(fp, " ->");
+    for (int j = 0; j < u.nout; ++j) put_bits<T>(fp, out[j]);
+    fprintf(fp, "\n");
+  }
+}
 template<> inline void put_bits<float>(FILE* fp, float v) { uint32_t b; std::memcpy(&b, &v, 4); fprintf(fp, " %u", b); }
 template<> inline void put_bits<double>(FILE* fp, double v) { uint64_t b; std::memcpy(&b, &v, 8); fprintf(fp, " %llu", (unsigned long long)b); }
 
@@ -434,7 +547,9 @@ inline int unit_main(int argc, char** argv) {
   if (argc >= 2 && !strcmp(argv[1], "trace")) {
     for (auto const& u : registry()) {
       arena().clear();
-      Traced tr = trace_unit(u.name, u.nin, u.nout, u.fsym);
+      Traced tr = u.ty == T_I32 ? trace_unit<SymI32>(u.name, u.nin, u.nout, u.fsymi)
+                : u.ty == T_U32 ? trace_unit<SymU32>(u.name, u.nin, u.nout, u.fsymu)
+                : trace_unit<SymR>(u.name, u.nin, u.nout, u.fsym);
       emit(stdout, tr);
     }
     return 0;
@@ -442,6 +557,8 @@ inline int unit_main(int argc, char** argv) {
   if (argc >= 4 && !strcmp(argv[1], "run")) {
     uint64_t seed = strtoull(argv[2], 0, 10); int count = atoi(argv[3]);
     for (auto const& u : registry()) {
+      if (u.ty == T_I32) { run_concrete_int<int32_t>(stdout, u, u.fi32, "i32", seed, count); continue; }
+      if (u.ty == T_U32) { run_concrete_int<uint32_t>(stdout, u, u.fu32, "u32", seed, count); continue; }
       run_concrete<float>(stdout, u, u.f32, "f32", seed, count);
       run_concrete<double>(stdout, u, u.f64, "f64", seed, count);
     }
@@ -450,7 +567,12 @@ inline int unit_main(int argc, char** argv) {
   if (argc >= 4 && !strcmp(argv[1], "eval")) {   // eval <unit> <f32|f64> <input bit patterns…>  (replay on the real glm)
     for (auto const& u : registry()) if (u.name == argv[2]) {
       if (argc - 4 != u.nin) { fprintf(stderr, "eval: %s needs %d inputs\n", argv[2], u.nin); return 2; }
-      if (!strcmp(argv[3], "f32")) {
+      if (u.ty == T_I32 || u.ty == T_U32) {
+        std::vector<uint32_t> in(u.nin), out(u.nout);
+        for (int i = 0; i < u.nin; ++i) in[i] = (uint32_t)strtoull(argv[4 + i], 0, 10);
+        if (u.ty == T_I32) u.fi32((int32_t const*)in.data(), (int32_t*)out.data()); else u.fu32(in.data(), out.data());
+        for (int j = 0; j < u.nout; ++j) printf(" %u", out[j]);
+      } else if (!strcmp(argv[3], "f32")) {
         std::vector<float> in(u.nin), out(u.nout);
         for (int i = 0; i < u.nin; ++i) { uint32_t b = (uint32_t)strtoull(argv[4 + i], 0, 10); std::memcpy(&in[i], &b, 4); }
         u.f32(in.data(), out.data());
